@@ -176,7 +176,7 @@ class C04(PropCheck):
     id = "C04"
     props_file = "Props/C04.v"
     quick_cases = 200
-    thorough_cases = 3000
+    thorough_cases = 2000
     shard = 20
     assumptions = [
         "devices, registers, layouts and detuning maps are opaque to the model (their own codecs are C17's subject); the oracle compares them on the real objects",
